@@ -295,6 +295,9 @@ theorem candIds_nodup (rs : List (List (Nat × Nat))) (h : ∀ r ∈ rs, (r.map 
   · exact List.nodup_nil
   · exact (List.filter_sublist).nodup (h _ List.mem_cons_self)
 
+theorem zeroArgIds_nodup (ms : List Meth) (hid : (ms.map (·.id)).Nodup) : (zeroArgIds ms).Nodup :=
+  ((List.filter_sublist (l := ms)).map _).nodup hid
+
 theorem candidates_nodup (cfg : Cfg) (ms : List Meth) (hid : (ms.map (·.id)).Nodup)
     (k : Key) (cs : List Cand) (h : candidates cfg ms k = some cs) : (cs.map (·.id)).Nodup := by
   unfold candidates at h
@@ -305,8 +308,10 @@ theorem candidates_nodup (cfg : Cfg) (ms : List Meth) (hid : (ms.map (·.id)).No
     rw [List.map_map]
     have : ((fun c : Cand => c.id) ∘ mkCand ms rs) = id := rfl
     rw [this, List.map_id]
-    exact (List.mergeSort_perm _ _).nodup_iff.mpr
-      (candIds_nodup rs (slotResults_fst_nodup cfg ms hid k rs hrs))
+    refine (List.mergeSort_perm _ _).nodup_iff.mpr ?_
+    split
+    · exact zeroArgIds_nodup ms hid
+    · exact candIds_nodup rs (slotResults_fst_nodup cfg ms hid k rs hrs)
 
 theorem plan_ok (cfg : Cfg) (ms : List Meth)
     (hid : (ms.map (·.id)).Nodup) (hcode : (ms.map (·.code)).Nodup) :
